@@ -1445,8 +1445,56 @@ def container_method(I, obj, name):
                 if not any(_same(hkey(a[0]), y) for y in cell):
                     cell.append(hkey(a[0]))
             return B(add)
-        if name in ('union', 'difference', 'intersection', 'update', 'discard', 'remove'):
-            raise Unsupported('set.%s' % name)
+        def _concrete_keys(vals):
+            ks = [hkey(v) for v in vals]
+            if any(isinstance(v, SV) for v in ks) or any(isinstance(v, SV) for v in cell):
+                raise Unsupported('set operation on symbolic elements')
+            return ks
+
+        def _has(coll, y):
+            return any(_same(y, z) for z in coll)
+        if name == 'update':
+            def upd(I_, a, k):
+                st.note_write(obj)
+                for src in a:
+                    items = concrete_iter(I_, src)
+                    if items is None:
+                        raise Unsupported('set.update from a symbolic sequence')
+                    for y in _concrete_keys(items):
+                        if not _has(cell, y):
+                            cell.append(y)
+                return None
+            return B(upd)
+        if name in ('discard', 'remove'):
+            def disc(I_, a, k):
+                st.note_write(obj)
+                y = _concrete_keys([a[0]])[0]
+                hit = [z for z in cell if _same(y, z)]
+                if not hit and name == 'remove':
+                    raise PyExc('KeyError')
+                for z in hit:
+                    cell.remove(z)
+                return None
+            return B(disc)
+        if name in ('union', 'difference', 'intersection'):
+            def comb(I_, a, k):
+                other = []
+                for src in a:
+                    items = concrete_iter(I_, src)
+                    if items is None:
+                        raise Unsupported('set.%s with a symbolic sequence' % name)
+                    other.extend(_concrete_keys(items))
+                _concrete_keys([])
+                if name == 'union':
+                    out = list(cell) + [y for n_, y in enumerate(other) if not _has(cell, y) and not _has(other[:n_], y)]
+                elif name == 'difference':
+                    out = [z for z in cell if not _has(other, z)]
+                else:
+                    out = [z for z in cell if _has(other, z)]
+                return st.alloc('set', out)
+            return B(comb)
+        if name == 'copy':
+            return B(lambda I_, a, k: st.alloc('set', list(cell)))
         raise PyExc('AttributeError', name)
     raise Unsupported('method %s of %r' % (name, obj))
 
